@@ -127,7 +127,15 @@ class BufSeq:
         return self.elem(it, simp(z3.If(i < 0, i + n, i)))
 
     def setitem(self, it, idx, val, node):
-        raise Unsupported('assignment into symbolic list')
+        if not isinstance(val, View):
+            raise Unsupported('assignment of non-bytes into a list of byte strings')
+        i, n = zint(idx), zint(self.n)
+        if not it.run.branch(z3.And(i >= -n, i < n), 'list.index_ok'):
+            it.raise_(IndexError, 'list assignment index out of range', node=node)
+        j = simp(z3.If(i < 0, i + n, i))
+        self.cells = z3.Store(self.cells, j, zint(val.cell))
+        self.starts = z3.Store(self.starts, j, zint(val.start))
+        self.lens = z3.Store(self.lens, j, zint(val.length))
 
     def getslice(self, it, lo, hi, node):
         s, n = it.norm_slice(self.n, lo, hi)
